@@ -7,6 +7,7 @@ Confirms a seeded change in a scratch worktree (outside /repo and /verif) and ru
  3. ./check <PID> with PURL_REPO=<scratch>  -> expect exit 1 + VIOLATION
 Prints a JSON summary. The scratch worktree is removed afterwards."""
 import json, os, shutil, subprocess, sys, time
+VERIF = os.path.dirname(os.path.dirname(os.path.abspath(__file__)))
 
 patch, demo, pids = sys.argv[1], sys.argv[2], sys.argv[3:]
 W = '/tmp/seedcheck-%d' % os.getpid()
@@ -45,12 +46,12 @@ try:
             os.remove(W + '/purl/tests/demo.rs')
         for pid in pids:
             t0 = time.time()
-            rc, out = sh('./check %s' % pid, cwd='/verif', e=dict(env, PURL_REPO=W))
+            rc, out = sh('./check %s' % pid, cwd=VERIF, e=dict(env, PURL_REPO=W))
             lines = [l for l in out.split('\n') if l.startswith(('VIOLATION', 'UNDECIDED', 'KNOWN', 'OK', 'V ', 'K ', 'B '))]
             res['checks'][pid] = dict(exit=rc, wall=round(time.time() - t0, 1), lines=[l[:260] for l in lines])
 finally:
     sh('git -C /repo worktree remove --force %s' % W)
     shutil.rmtree(W, ignore_errors=True)
     # restore the harness crates to /repo
-    sh("sed 's#@REPO@#/repo#' bounded/Cargo.toml.in > bounded/Cargo.toml; sed 's#@REPO@#/repo#' kani/Cargo.toml.in > kani/Cargo.toml", cwd='/verif')
+    sh("sed 's#@REPO@#/repo#' bounded/Cargo.toml.in > bounded/Cargo.toml; sed 's#@REPO@#/repo#' kani/Cargo.toml.in > kani/Cargo.toml", cwd=VERIF)
 print(json.dumps(res, indent=1, ensure_ascii=False))
